@@ -136,13 +136,19 @@ _CHECK = None
 _CASES = None
 
 
+def is_group(case):
+    return isinstance(case, tuple) and len(case) > 0 and case[0] == '@group'
+
+
 def _work(rng):
+    """run the cases _CASES[lo:hi]; an item ('@group', ...) stands for the cases chk.expand(item) yields (generated in
+    the worker, so that very large families never exist as one list)"""
     lo, hi = rng
     chk = _CHECK
     agg = {'viol': {}, 'keys': set(), 'counters': collections.Counter(), 'cover': {}, 'timeouts': 0, 'n': 0}
     signal.signal(signal.SIGALRM, _alarm)
-    for i in range(lo, hi):
-        case = _CASES[i]
+
+    def one(case, order):
         res = None
         try:
             signal.setitimer(signal.ITIMER_REAL, getattr(chk, 'case_timeout', CASE_TIMEOUT))
@@ -163,12 +169,21 @@ def _work(rng):
             slot = agg['viol'].setdefault(sig, {'count': 0, 'examples': []})
             slot['count'] += 1
             if len(slot['examples']) < 3:
-                slot['examples'].append((i, msg))
+                slot['examples'].append((order, msg, case))
         for k in res.keys:
             agg['keys'].add(h64(k))
         agg['counters'].update(res.counters)
         for name, items in res.cover.items():
             agg['cover'].setdefault(name, set()).update(items)
+
+    for i in range(lo, hi):
+        case = _CASES[i]
+        if is_group(case):
+            for j, sub in enumerate(chk.expand(case)):
+                one(sub, (i, j))
+            agg['counters']['lazy_groups_expanded'] += 1
+        else:
+            one(case, (i, 0))
     return agg
 
 
@@ -189,7 +204,19 @@ def run_cases(chk, cases, seed):
     n = len(cases)
     nproc = min(NPROC, max(1, n))
     chunk = max(1, min(400, n // (nproc * 8) + 1))
-    ranges = [(lo, min(n, lo + chunk)) for lo in range(0, n, chunk)]
+    ranges = []
+    lo = 0
+    for i, c in enumerate(cases):
+        if is_group(c):
+            if lo < i:
+                ranges.append((lo, i))
+            ranges.append((i, i + 1))
+            lo = i + 1
+        elif i + 1 - lo >= chunk:
+            ranges.append((lo, i + 1))
+            lo = i + 1
+    if lo < n:
+        ranges.append((lo, n))
     if ranges:
         r = seed % len(ranges)
         ranges = ranges[r:] + ranges[:r]
@@ -206,7 +233,7 @@ def run_cases(chk, cases, seed):
             t = total['viol'].setdefault(sig, {'count': 0, 'examples': []})
             t['count'] += slot['count']
             t['examples'].extend(slot['examples'])
-            t['examples'].sort()
+            t['examples'].sort(key=lambda e: e[0])
             del t['examples'][3:]
 
     if nproc == 1 or os.environ.get('VERIF_SERIAL'):
@@ -286,8 +313,7 @@ def main_check(chk, argv):
     printed = 0
     for sig in unknown_sigs:
         slot = total['viol'][sig]
-        idx, msg = slot['examples'][0]
-        case = cases[idx]
+        _order, msg, case = slot['examples'][0]
         rec = {'property': pid, 'signature': sig, 'message': msg, 'count': slot['count'],
                'case': chk.encode_case(case) if hasattr(chk, 'encode_case') else jsonable(case),
                'described': jsonable(chk.describe_case(case))}
@@ -306,9 +332,9 @@ def main_check(chk, argv):
     if args.list_sigs:
         for sig in sorted(total['viol']):
             slot = total['viol'][sig]
-            idx, msg = slot['examples'][0]
+            _order, msg, case = slot['examples'][0]
             print('SIG', json.dumps({'signature': sig, 'count': slot['count'],
-                                     'example': jsonable(chk.describe_case(cases[idx])), 'msg': str(msg)[:600]},
+                                     'example': jsonable(chk.describe_case(case)), 'msg': str(msg)[:600]},
                                     ensure_ascii=False, default=repr))
     stale = [s for s in known if s not in total['viol']]
 
@@ -325,8 +351,9 @@ def main_check(chk, argv):
     extra = chk.coverage(total) or {}
     cov.update(extra)
     if 'samples' not in cov:
-        step = max(1, len(cases) // 5)
-        cov['samples'] = [jsonable(chk.describe_case(cases[(seed + i * step) % len(cases)])) for i in range(min(5, len(cases)))]
+        plain = [c for c in cases if not is_group(c)] or [next(iter(chk.expand(c))) for c in cases[:5]]
+        step = max(1, len(plain) // 5)
+        cov['samples'] = [jsonable(chk.describe_case(plain[(seed + i * step) % len(plain)])) for i in range(min(5, len(plain)))]
     if total['timeouts']:
         cov['exhaustive'] = False
     ev = {
